@@ -102,9 +102,10 @@ def check_module(m, res, d, label, src=None, path=None, inp=None):
         # link 3: execModule vs the real module object
         c07._cnt(res, 'link3:exec')
         p_real, p_model = proj_filter(a[1]), proj_filter(a[2])
-        if ' import *' in src:
-            # a star import binds names the mini-AST does not list: a later def re-binds such a key in place, so only
-            # the ORDER of the module dict is outside the model; the entries are compared as a set
+        if ' import *' in src or 'rebinding:alias' in m.features:
+            # a star import binds names the mini-AST does not list (a later def re-binds such a key in place), and the model
+            # applies `Alias = name` assignments after all definitions (Dynamic.applyAliases): only the ORDER of the module
+            # dict is outside the model; the entries are compared as a set
             p_real, p_model = '|'.join(sorted(p_real.split('|'))), '|'.join(sorted(p_model.split('|')))
         if p_real != p_model:
             res['disagree'].append(('link3:exec', inp, p_model[:400], p_real[:400]))
@@ -151,7 +152,7 @@ def gen_package(rng):
     importing module."""
     pkg = cc.unique_modname('xdvpkg')
     oth = pkg + '_sib'
-    o = gm.Opts(max_top=3, unexecuted_defs_p=0.0)
+    o = gm.Opts(max_top=3, unexecuted_defs_p=0.0, alias_names=False)
     mods = {k: gm.gen_module(rng, o) for k in ('init', 'sub', 'inner', 'deep', 'oth')}
 
     def tops(m):
